@@ -41,10 +41,15 @@ Next == (\E k \in Keys, v \in Vals : Insert(k, v)) \/ (\E k \in Keys : Delete(k)
 Spec == Init /\ [][Next]_vars
 
 View == <<list, steps>>
-(* frozen: every earlier TraceState value still reads as it did (copy-on-write) *)
+(* `from` and `to` are the SAME projection of the state (the list), so that the target of one  *)
+(* edge is recognisable as the source of the next (the harness reaches a source state through *)
+(* the BFS tree over these keys); what the action additionally RETURNS is carried in `out`:   *)
+(* err = the edit was refused, frozen = every earlier TraceState value still reads as it did  *)
+(* (copy-on-write)                                                                            *)
 EmitEdge == PrintT("EDGE " \o ToJson([from |-> [list |-> list],
                                       act |-> act',
-                                      to |-> [list |-> list', err |-> err', frozen |-> TRUE]]))
+                                      to |-> [list |-> list'],
+                                      out |-> [err |-> err', frozen |-> TRUE]]))
 
 -----------------------------------------------------------------------------
 (* the statement, on the model *)
